@@ -1,6 +1,6 @@
 """C06 - KMeansL1L2: L1 self-consistent in Manhattan geometry, L2 exactly KMeans."""
 from vf import loader
-from vf.core import Clause, Outcome, Violation, require
+from vf.core import Clause, Outcome, Violation, require, np_scalars, with_np
 
 import numpy as np
 from hypothesis import strategies as st
@@ -14,7 +14,7 @@ RULE = ("Hypothesis draws a pool of p>=k distinct dyadic points, then the data s
         "L1 oracle = validity predicates from the statement (any Manhattan-nearest centre accepted); L2 oracle = "
         "sklearn.cluster.KMeans with the same parameters and seed (exact equality of every fitted attribute, predict, transform). "
         "Non-trivial: L1 with duplicates / n==k / an explicit init / a tie between two centres for some training point; L2 with k>=2. "
-        "Distinct = distinct case JSON.")
+        "One case in three passes its scalar hyper-parameters as NumPy scalars (numpy.bool_, numpy.int64, numpy.float64). Distinct = distinct case JSON.")
 ASSUMPTIONS = ["sample weights None or all ones (non-uniform weights are a documented NotImplementedError; the statement does not say "
                "how a uniform weight c != 1 scales inertia_)", "dense data only"]
 TOLERANCES = {"L1 float64": "exact (dyadic data: |differences|, medians and their sums are exact)", "L1 float32": "1e-5 relative",
@@ -50,7 +50,7 @@ def check_l1(case):
                  n_distinct=int(len(np.unique(X, axis=0))))
     X0 = X.copy()
     np.random.seed(case["seed"])
-    m = _mod.KMeansL1L2(norm="L1", **kw)
+    m = _mod.KMeansL1L2(norm="L1", **np_scalars(kw, case.get("np_params", False)))
     r = m.fit(X, sample_weight=w)
     require(r is m, "fit:not-self", "", facts)
     require(np.array_equal(X, X0), "input-modified", "", facts)
@@ -103,7 +103,7 @@ def check_l2(case):
         w = np.array(case["l2_weights"][:len(X)], dtype=np.float64)
     facts = dict(k=k, n=len(X), init=case["init"] if isinstance(case["init"], str) else "array", dtype=case["dtype"])
     np.random.seed(case["seed"])
-    m = _mod.KMeansL1L2(norm="L2", **kw).fit(X, sample_weight=w)
+    m = _mod.KMeansL1L2(norm="L2", **np_scalars(kw, case.get("np_params", False))).fit(X, sample_weight=w)
     np.random.seed(case["seed"])
     ref = KMeans(**kw).fit(X, sample_weight=w)
     for a in ("cluster_centers_", "labels_", "inertia_", "n_iter_"):
@@ -155,8 +155,8 @@ def _cases(draw, tier="quick"):
 
 
 CLAUSES = [
-    Clause("l1", check_l1, strategy=lambda tier: _cases(tier), quick=2400, thorough=40000, quick_shards=12,
+    Clause("l1", check_l1, strategy=lambda tier: with_np(_cases(tier)), quick=2400, thorough=40000, quick_shards=12,
            doc="norm='L1': nearest-centre labels, inertia, centres within the data range, predict, transform"),
-    Clause("l2", check_l2, strategy=lambda tier: _cases(tier), quick=600, thorough=10000, quick_shards=4,
+    Clause("l2", check_l2, strategy=lambda tier: with_np(_cases(tier)), quick=600, thorough=10000, quick_shards=4,
            doc="norm='L2' == sklearn KMeans, exactly"),
 ]
